@@ -316,8 +316,10 @@ func (i *interpreter) writerAppend(fr *frame, w iface, s string) value {
 		switch w.v {
 		case i.m.stdoutPtr(i):
 			name = "stdout"
+			i.os().stdout = append(i.os().stdout, s...)
 		case i.m.stderrPtr(i):
 			name = "stderr"
+			i.os().stderr = append(i.os().stderr, s...)
 		}
 		i.event("write:"+name, s)
 	case "*bytes.Buffer":
